@@ -62,7 +62,8 @@ static const char* PHRASES[] = {
   "x #b-> y", "x #h-> y", "x #!h-> y", "x #i-> y", "x #!i-> y", "x #q-> y", "x #!q-> y", "x #H-> y", "x #!I-> y", "x #f-> y", "x #!f-> y", "x #d-> y",
   "x #!d-> y", "x #varint-> y", "x #zigzag-> y", "x #2bit-> y", "x i-> z", "x #!d-> z", "x #B-> z",
   // output
-  "y <- stack", "y +<- stack", "y len", "y rewind", "y dup", "z <- stack", "z +<- stack", "z len", "z rewind",
+  "y <- stack", "y +<- stack", "y len", "y rewind", "15 and y dup",   // (count masked: an unbounded "dup" is an unbounded allocation)
+  "z <- stack", "z +<- stack", "z len", "z rewind",
   // control (decoder commands)
   "@if", "@else", "@then", "@do", "@loop", "@+loop", "@begin", "@until", "@again", "@while", "@repeat", "@i", "@j", "@def", "@enddef", "@call0",
   "@call1", "@recurse", "@exit", "pause", "halt", "@if", "@then", "@do", "@loop", "@begin", "@until", "@i",
@@ -297,6 +298,10 @@ static void test_one(const Decoded& d) {
 extern "C" int LLVMFuzzerTestOneInput(const uint8_t* data, size_t size) {
   if (size < 3) return 0;
   Decoded d = decode(data, size);
+  if (std::getenv("FUZZ_FORTH_PRINT") != nullptr) {
+    std::fprintf(stderr, "bits=%d stack=%lld recursion=%lld init=%lld factor=%g input=%zu bytes\nsource: %s\n",
+                 d.bits, (long long)d.stack_size, (long long)d.recursion, (long long)d.init_a, d.factor_a, d.input.size(), d.source.c_str());
+  }
   if (d.bits == 32) test_one<ak::ForthMachine32, ak::ForthMachine64>(d);
   else test_one<ak::ForthMachine64, ak::ForthMachine32>(d);
   return 0;
